@@ -89,6 +89,7 @@ type SpecFile struct {
 	FuncOrder []string
 	Facts     []*Fact
 	Raw       []string
+	WfNonNil  bool
 }
 
 func (c *Contract) clauses(kind string) []*Clause {
@@ -179,6 +180,9 @@ func parseSpecFile(path string) (*SpecFile, error) {
 			sf.Contracts[c.Key] = c
 			sf.Order = append(sf.Order, c.Key)
 			cur = c
+		case t == "wf nonnil-elements":
+			cur = nil
+			sf.WfNonNil = true
 		case strings.HasPrefix(t, "axiom ") || strings.HasPrefix(t, "lemma"):
 			cur = nil
 			fa, err := parseFact(t, l.no)
